@@ -3,6 +3,8 @@ package checks
 import (
 	"fmt"
 	"sort"
+	"verif/internal/docgen"
+	"verif/internal/jsonx"
 
 	"verif/internal/sem"
 	"verif/internal/sg"
@@ -113,6 +115,36 @@ func c19Shapes(ctx *Ctx) []*sem.Case {
 				}
 				out = append(out, c)
 			}
+		}
+	}
+	// arrays nested 1..4 deep with limits at some level, and ragged documents (rows of different lengths, empty rows,
+	// nulls): the generated loops must index each level by its own length
+	for depth := 1; depth <= 4; depth++ {
+		for lim := 0; lim < 3; lim++ {
+			var s *sg.Schema = &sg.Schema{Types: []string{"integer"}, Min: sg.Fp(0)}
+			for d := depth; d >= 1; d-- {
+				a := &sg.Schema{Types: []string{"array"}, Items: s}
+				if (lim == 0 && d == 1) || (lim == 1 && d == depth) || lim == 2 {
+					a.MaxItems = 4
+					if d%2 == 0 {
+						a.MinItems = 1
+					}
+				}
+				s = a
+			}
+			root := &sg.Schema{Types: []string{"object"}, Props: []sg.Prop{{Name: "cells", S: s}, {Name: "opt", S: &sg.Schema{Types: []string{"string"}}}}, Required: []string{"cells"}}
+			c := &sem.Case{Root: root, Sig: fmt.Sprintf("shape/array-depth-%d-limits-%d", depth, lim)}
+			if (depth+lim)%2 == 0 {
+				c.Args = []string{"--extra-imports"}
+			}
+			for _, text := range []string{`[[[1]],[[2]]]`, `[[],[[1],[2]]]`, `[[[1],[2],[3]],[[4]]]`, `[[[1,2,3]],[],[[]]]`, `[[1],[2,3],[]]`, `[1,2]`, `[[[[1]],[[2],[3]]],[[[4]]]]`, `[[[[]]],[]]`,
+				`[null,[[1]]]`, `[[null],[[1],[2]]]`, `[[[1]],null,[[2],[3]]]`, `[]`, `[[]]`, `[[[]]]`, `[[[1]],[[2]],[[3]],[[4]],[[5]]]`} {
+				v, err := jsonx.Parse([]byte(`{"cells":` + text + `,"opt":"x"}`))
+				if err == nil {
+					c.Docs = append(c.Docs, docgen.Doc{V: v, Class: "ragged", Label: text})
+				}
+			}
+			out = append(out, c)
 		}
 	}
 	return out
